@@ -79,7 +79,46 @@ def run_c35(prop):
     return v.finish()
 
 
+def run_c36(prop):
+    quick = vlib.tier() != "thorough"
+    v = Verdict(prop, "model_checking")
+    v.rule = ("case = history of 7 (thorough 8) storage calls (append, vote, apply, snapshot build, purge, snapshot install, conflict deletion) on 3 log positions, "
+              "each call cut by a crash before any of its RocksDB writes, with reopen at any point; non-trivial = the history contains a reopen; distinct by hash")
+    v.assumptions = ["a crash leaves exactly the RocksDB writes issued before it (WAL, synchronous puts): realised by panicking before the n-th write (hook H9) and dropping the store",
+                     "reopen = RocksStore::open_with_shared_state, as bootstrap_persistent does", "needs the `persistent` feature (RocksDB built from source, ~8 min cold)"]
+    w = workdir("raft36")
+    mo = 6 if quick else 7
+    base = 'CONSTANTS MaxIdx = 3\nMaxOps = %d\nRecoverFrom = "%s"\nINIT Init\nNEXT Next\n'
+    r = tlc("RocksRecovery", base % (mo, "snapshot") + "INVARIANT Recovered\nCHECK_DEADLOCK FALSE\n", "rr_ideal", workers=8, timeout=3000)
+    if r.error or r.violated:
+        raise vlib.ToolError("RocksRecovery ideal design: %s %s" % (r.error, r.violated))
+    v.add_tlc(r, "RocksRecovery: persisting the snapshot before the applied position and recovering from it satisfies Recovered")
+    r0 = tlc("RocksRecovery", base % (mo, "log") + "INVARIANT Recovered\nCHECK_DEADLOCK FALSE\n", "rr_faith", workers=4, timeout=3000)
+    if r0.violated != "Recovered":
+        raise vlib.ToolError("RocksRecovery faithful model expected to violate Recovered: %s" % (r0.error or r0.violated))
+    v.notes.append("faithful model (recovery replays only the remaining log) violates Recovered at design level")
+    L = 7 if quick else 8
+    r = tlc("RocksRecovery", base % (L, "log") + "INVARIANT Case\nCHECK_DEADLOCK FALSE\n", "rr_gen", workers=1, timeout=3000,
+            simulate=(250 if quick else 6000), depth=L + 1, tlc_seed=vlib.seed())
+    if r.error:
+        raise vlib.ToolError("RocksRecovery GEN: " + r.error)
+    cases = extract_cases(r.stdout)
+    ops = {h["op"] for c in cases for h in c["hist"]}
+    if not {"append", "vote", "apply", "build", "purge", "install", "conflict", "reopen"} <= ops:
+        raise vlib.ToolError("RocksRecovery GEN missed operations: %s" % sorted(ops))
+    cases = cases[:: max(1, len(cases) // (1500 if quick else 30000))]
+    v.add_tlc(r, "RocksRecovery GEN: %d histories" % len(cases))
+    cp, rp = os.path.join(w, "cases.ndjson"), os.path.join(w, "report.json")
+    write_ndjson(cp, cases)
+    run_harness("vhraft", ["rocks-replay", cp, rp], features="persistent", timeout=3000)
+    rep = load_report(rp)
+    v.add_report(rep)
+    return v.finish()
+
+
 def run(prop, replay=None):
     if prop == "C35":
         return run_c35(prop)
+    if prop == "C36":
+        return run_c36(prop)
     raise vlib.ToolError("no check for " + prop)
